@@ -39,6 +39,42 @@ def call_method(func_node, self_state, args):
     return None
 
 
+class FuncObj:
+    """a function object created by a nested `def` (not executed): its node, the attributes stored on it and the
+    (live) environment it closes over"""
+    def __init__(self, node, env):
+        self.node = node
+        self.env = env
+        self.attrs = {}
+
+    def __repr__(self):
+        return "<function %s>" % self.attrs.get("__name__", self.node.name)
+
+
+def call_function(func_node, args):
+    """run a plain function (no self) on concrete arguments"""
+    prm = A.params(func_node)
+    if len(args) != len(prm):
+        raise AnalysisError("miniinterp: arity")
+    env = dict(zip(prm, args))
+    env["__self__"] = {}
+    try:
+        _block(func_node.body, env)
+    except _Ret as r:
+        return r.v
+    return None
+
+
+def closure_value(fobj, expr):
+    """value of `expr` inside the body of the nested function `fobj` when it only uses closed-over names; raises
+    AnalysisError for anything depending on the function's own parameters"""
+    own = set(A.params(fobj.node))
+    for n in ast.walk(expr):
+        if isinstance(n, ast.Name) and n.id in own:
+            raise AnalysisError("depends on a parameter")
+    return _ev(expr, fobj.env)
+
+
 def _block(stmts, env):
     for st in stmts:
         _stmt(st, env)
@@ -50,6 +86,9 @@ def _stmt(st, env):
             _ev(st.value, env)
         return
     if isinstance(st, ast.Pass):
+        return
+    if isinstance(st, ast.FunctionDef):
+        env[st.name] = FuncObj(st, env)
         return
     if isinstance(st, ast.With):
         _block(st.body, env)
@@ -123,6 +162,8 @@ def _store(t, val, env):
         base[_ev(t.slice, env)] = val
     elif isinstance(t, ast.Attribute) and isinstance(t.value, ast.Name) and env.get(t.value.id) == "__SELF__":
         env["__self__"][t.attr] = val
+    elif isinstance(t, ast.Attribute) and isinstance(t.value, ast.Name) and isinstance(env.get(t.value.id), FuncObj):
+        env[t.value.id].attrs[t.attr] = val
     elif isinstance(t, (ast.Tuple, ast.List)):
         vals = list(val)
         if len(vals) != len(t.elts):
@@ -207,7 +248,7 @@ def _ev(e, env):
                 except KeyError:
                     raise Raised("KeyError")
         d = A.call_name(e)
-        if d in ("len", "max", "min", "list", "tuple"):
-            return {"len": len, "max": max, "min": min, "list": list, "tuple": tuple}[d](*[_ev(a, env) for a in e.args])
+        if d in ("len", "max", "min", "list", "tuple", "str"):
+            return {"len": len, "max": max, "min": min, "list": list, "tuple": tuple, "str": str}[d](*[_ev(a, env) for a in e.args])
         raise AnalysisError("miniinterp: unsupported call %s" % A.src(e))
     raise AnalysisError("miniinterp: unsupported expression %s" % A.src(e))
